@@ -73,6 +73,7 @@ Image *load_image(const std::string &dir, const std::string &name) {
     }
     for (int i = 0; i < info->dlpi_phnum; i++) {
       const ElfW(Phdr) &ph = info->dlpi_phdr[i];
+      if (ph.p_type == PT_LOAD && (ph.p_flags & PF_X)) cov_register(c->img->name, info->dlpi_addr, info->dlpi_addr + ph.p_vaddr + ph.p_memsz);
       if (ph.p_type != PT_LOAD || !(ph.p_flags & PF_W)) continue;
       uintptr_t lo = info->dlpi_addr + ph.p_vaddr, hi = lo + ph.p_memsz;
       if (relro_hi > lo && relro_lo <= lo) lo = std::min(hi, relro_hi);
